@@ -1,8 +1,9 @@
 use crate::impl_::sodium_ctx::SodiumCtx;
+use std::sync::atomic::{AtomicBool, Ordering};
 
 pub struct Transaction {
     sodium_ctx: SodiumCtx,
-    done: std::cell::Cell<bool>,
+    done: AtomicBool,
 }
 
 impl Transaction {
@@ -10,15 +11,14 @@ impl Transaction {
         sodium_ctx.enter_transaction();
         Transaction {
             sodium_ctx: sodium_ctx.clone(),
-            done: std::cell::Cell::new(false),
+            done: AtomicBool::new(false),
         }
     }
 
     // optional earily close
     pub fn close(&self) {
-        if !self.done.get() {
+        if !self.done.swap(true, Ordering::SeqCst) {
             self.sodium_ctx.leave_transaction();
-            self.done.set(true);
         }
     }
 }
